@@ -34,6 +34,9 @@ checks = {
  "C07": ("E1", E1,
    "All schedules (pre-emption bound 1-2, delay bound 2-3 for the two-producer/two-consumer scenarios; early timer firing as a deviation; happens-before state cache) of producers (Offer/Put of tagged values), consumers (Poll / TakeWithTimeout / receive on GetChannel) and the queue's own loader and free-node goroutines over every (channelCapacity, bufferSizeMaximum) in {0,1,2}^2, followed by a drain (repeated Poll with pauses, or one blocking Take per outstanding item); plus the ChannelQueue wrappers on capacities 0-2. Invariant at every scheduling step with the queue lock free: channel length + overflow <= capacity + maximum. At the end: delivered multiset = accepted multiset (capacity >= 1), per-producer order per consumer, no invented/duplicated value, ErrQueueIsFull / ErrQueueIsEmpty only when the overflow was at its maximum / the channel was empty at some step of the call, Offer/Poll never blocked, Count() = 0.",
    "Bounded producers/consumers/values/deviations; virtual time with a 400 ms horizon; SC interleavings; vsched runtime model; private queue state read by reflection for the capacity clause.", "DESIGN.md §2, §5 C07"),
+ "C14": ("E1", E1,
+   "All schedules (pre-emption bound 2/3 for 1-2 callers, delay bound 2-3 for 3-8 callers; happens-before state cache) of a target coroutine with generator shape fixed / echo / accumulate serving 1-8 caller coroutines x 1-7 YieldFrom requests (including 7 sequential requests and 7-8 simultaneously pending ones, more than the channel buffer of 5), started before or after the callers; StartWithVal alone and racing with a caller that asks as soon as IsStarted reports true; DoNotation and YieldFromIO(Just / New). Oracle: the i-th request taken by the target returns that request's x to YieldRef and the i-th yielded value to exactly the caller that made it, per-caller order, nothing lost / duplicated / invented, lifecycle flags.",
+   "Bounded callers/requests/deviations; SC interleavings; vsched runtime model.", "DESIGN.md §2, §5 C14"),
 }
 
 not_yet = "check not built yet in this round (see DESIGN.md §9 build order); no claim made"
